@@ -446,7 +446,9 @@ class C05(Prop):
             "call_other incl. surplus arguments, function pointers of every kind, map/filter/sort_array/unique_array "
             "callbacks, catch in catch, error()/throw(), safe applies via sprintf(\"%O\"), create() in load_object/new, "
             "input_to, enable_commands, init() hooks via move_object, move_or_destruct() hooks via destruct, and the program "
-            "as a callback of the real call_out() sweep); every program is run once per instruction with a fault injected there; a case "
+            "as a callback of the real call_out() sweep; arity -3..+3 through call_other / function pointers / the driver's "
+            "safe_apply and safe_call_function_pointer with 0 or 4 locals; every frame kind at exactly limit-2 / limit-1 / limit "
+            "frames of a lowered MaxCallDepth); every program is run once per instruction with a fault injected there; a case "
             "is non-trivial when its trace has >= 2 lines; distinct = distinct canonical implementation trace")
     not_covered = ["heart-beat switch-off in error_handler, the backend() main-loop resume point and reset()/clean_up() recovery are not exercised (the call_out() sweep resume point is)",
                    "C locals of efuns that are live across a longjmp (observed via ASan only)",
@@ -634,6 +636,59 @@ class C05(Prop):
             budget = rng.range(4, 14) if tier != "thorough" else rng.range(4, 22)
             out.append(build_case(rng, "g%d" % i, budget))
         return out
+
+    # ---- oracle self-test: the string judge must reject hand-made bad traces (one per clause) ----
+    def extra_checks(self, ctx, tier, rng):
+        snap = "sp=-1 csp=-1 cg=u1 co=0 po=0 prog=0 ct=0 fp=-1 pc=null fio=0 vio=0 ctx=0 ld=0 rd=0"
+        probe = "caught *probe-err ; probe tp=u1 po=0 d=0 l=0 a=3,4 e=*probe-err  co=42 side in=0"
+        head = ["base " + snap, "probe0 " + probe]
+
+        def out(segs, after=snap, pr=probe):
+            return "outcome %s ; after=%s ; probe=%s" % (" ; ".join(segs), after, pr)
+        neg = [
+            ("sp", [out(["err *x", "fault-top"], snap.replace("sp=-1", "sp=0"))], "restore fault sp"),
+            ("csp", [out(["err *x", "fault-top"], snap.replace("csp=-1", "csp=0"))], "restore fault csp"),
+            ("ctx", [out(["done 1"], snap.replace("ctx=0", "ctx=1"))], "restore fault ctx"),
+            ("cg-fail", [out(["err *x", "fault-top"], snap.replace("cg=u1", "cg=t"))], "restore fault cg"),
+            ("cg-done-unlogged", [out(["done 1"], snap.replace("cg=u1", "cg=t"))], "restore fault cg"),
+            ("co", [out(["done 1"], snap.replace("co=0", "co=t"))], "restore fault co"),
+            ("pc", [out(["done 1"], snap.replace("pc=null", "pc=set"))], "restore fault pc"),
+            ("ld", [out(["caught *x", "catch *x", "done 1"], snap.replace("ld=0", "ld=1"))], "restore fault ld"),
+            ("rd", [out(["catch t1", "done 1"], snap.replace("rd=0", "rd=other"))], "restore fault rd"),
+            ("probe", [out(["done 1"], pr=probe.replace("a=3,4", "a=3"))], "probe fault differs"),
+            ("probe-destruct", [out(["done 1"], pr=probe.replace("d=0", "d=*Only this_object() can be destructed"))], "probe fault differs"),
+            ("half-install", [out(["caught nf", "catch nf", "done 1"], pr=probe.replace("in=0", "in=1"))], "half-install"),
+            ("catch-value", [out(["caught *boom1", "catch *other", "done 1"])], "catch-value"),
+            ("cg-changed", [out(["caught *boom1", "catch *boom1 cg-changed", "done 1"])], "command_giver not restored by catch"),
+            ("crash-line", ["crash signal 11"], "crash"),
+            ("sanitizer", ["sanitizer ERROR: AddressSanitizer: SEGV"], "crash"),
+        ]
+        pos = [("ok-fault", [out(["err *verif injected fault", "fault-top"])]),
+               ("ok-setcg", [out(["say set-cg", "done 1"], snap.replace("cg=u1", "cg=t"))]),
+               ("ok-install", [out(["say did-input_to", "done 1"], pr=probe.replace("in=0", "in=1"))]),
+               ("ok-throw", [out(["catch t7", "done 1"])])]
+        cases, want = [], {}
+        for name, lines, expect in neg:
+            cid = "oracle-neg-" + name
+            cases.append(E.Case(cid, ["# ops (throw t7)", "inject t run", "--"] + head + lines))
+            want[cid] = expect
+        for name, lines in pos:
+            cid = "oracle-pos-" + name
+            cases.append(E.Case(cid, ["# ops (throw t7)", "inject t run", "--"] + head + lines))
+            want[cid] = None
+        res = E.nvdrive(self.id, "judge", E.cases_text(cases))
+        problems = []
+        for c in cases:
+            v = res.get(c.id, [])
+            if want[c.id] is None:
+                if v != ["ok"]:
+                    problems.append({"kind": "obligation-broken", "name": "oracle-self-test " + c.id,
+                                     "detail": "the oracle rejects a good trace: %s" % v})
+            elif not any(want[c.id] in x for x in v):
+                problems.append({"kind": "obligation-broken", "name": "oracle-self-test " + c.id,
+                                 "detail": "the oracle accepts a bad trace (expected '%s'): %s" % (want[c.id], v)})
+        self.oracle_selftest = {"negative": len(neg), "positive": len(pos), "failed": len(problems)}
+        return problems
 
     def histogram(self, cases, impl):
         h = {}
